@@ -23,7 +23,27 @@ NU_LO, NU_HI = -2, 3       # randint bounds; nu = k/4
 # ----------------------------------------------------------------------------
 # the task
 
+_PEL = {}
+_GRAD = {}
+
+
 def per_example_loss(noise):
+  """ONE function object per `noise` for the whole process: every algorithm instance is built from the same
+  loss object (hidden module-level / closure state keyed on it would be shared across instances)."""
+  if noise not in _PEL:
+    _PEL[noise] = _make_per_example_loss(noise)
+  return _PEL[noise]
+
+
+def shared_grad(noise, reg=0.0):
+  """ONE fedjax.grad(per_example_loss(noise), l2(reg)) object per (noise, reg)."""
+  import fedjax
+  if (noise, reg) not in _GRAD:
+    _GRAD[(noise, reg)] = fedjax.grad(per_example_loss(noise), make_regularizer(reg))
+  return _GRAD[(noise, reg)]
+
+
+def _make_per_example_loss(noise):
   import jax
   import jax.numpy as jnp
 
@@ -136,7 +156,7 @@ def make_optimizer(cfg):
   if cfg['kind'] == 'sgd':
     return fedjax.optimizers.sgd(cfg['lr'], momentum=cfg.get('mom'), nesterov=bool(cfg.get('nest', False)))
   if cfg['kind'] == 'adam':
-    return fedjax.optimizers.adam(cfg['lr'])
+    return fedjax.optimizers.adam(cfg['lr'], eps=cfg.get('eps', 1e-8))
   raise ValueError(cfg['kind'])
 
 
@@ -190,7 +210,7 @@ class RefOpt:
       u = g + m * self.t if c.get('nest') else self.t
       return p - c['lr'] * u
     if c['kind'] == 'adam':
-      b1, b2, eps = 0.9, 0.999, 1e-8
+      b1, b2, eps = 0.9, 0.999, c.get('eps', 1e-8)
       self.count += 1
       self.mu = b1 * self.mu + (1 - b1) * g
       self.nu = b2 * self.nu + (1 - b2) * g * g
